@@ -173,6 +173,8 @@ def run(ctx: Ctx):
     ctx.check(asg.replace(" ", "") == '?assignment:VARIABLE"="expression[comment][NEWLINE]', "R17.b", "src/gotranx/ode.lark::assignment", asg, f"assignment rule is `{asg}`", "src/gotranx/ode.lark")
 
     # ---- R17.c who may read annotations ----------------------------------------------------------------
+    check_raw_text(ctx, "R17.b")
+
     ctx.rule("R17.c", "unit, unit_str, description and comment attributes are never read by the code generators, templates, schemes or expression builder", floor=10)
     for short in NUMERIC_MODULES:
         mod = sm.module(short)
@@ -196,3 +198,55 @@ def run(ctx: Ctx):
                         bad.append(norm(n))
             if any(isinstance(n, ast.Attribute) and n.attr in ANNOT for n in ast.walk(f.node)):
                 ctx.check(not bad, "R17.c", f.key("annotation-reads"), "annotations are only copied into new atoms", f"{f.qualname} uses {bad} for something other than copying it into a new atom", f.where())
+
+
+TEXT_TRANSFORMS = {"sub", "subn", "replace", "strip", "rstrip", "lstrip", "splitlines", "split", "join", "expandtabs", "translate", "lower", "upper", "format", "encode", "decode", "partition", "rpartition", "removeprefix", "removesuffix"}
+
+
+def check_raw_text(ctx: Ctx, rule: str):
+    """What is a comment, a blank line or a line ending is decided by the grammar (R17.b).  The text the parser sees
+    must therefore be the text of the model itself: a transformation applied to the raw text before parsing cannot know
+    where comments are, so comment text could change what the following lines mean."""
+    from sa import av as _av
+
+    from . import util
+
+    sm = ctx.sm
+    ofs = sm.func("load.py", "ode_from_string")
+    A = util.AV(ctx)
+    n0 = len(A.call_log)
+    A.returned(ofs)
+    parses = [v for _f, _n, v in A.call_log[n0:] if v[0] == "mcall" and v[2] == "parse" and v[3]]
+    key = ofs.key("parser-input")
+    tp = ofs.params[0]
+    if not parses:
+        ctx.undecided(rule, key, "ode_from_string: the call of the parser is not found in what the function does", ofs.where())
+    else:
+        arg = parses[0][3][0]
+        changed = [m for m in _av.find_all(arg, "mcall") if m[2] in TEXT_TRANSFORMS] + [c for c in _av.find_all(arg, "call") if c[1].split(".")[-1] in ("sub", "subn", "join")]
+        if arg == ("sym", tp):
+            ctx.ok(rule, key, "the parser receives the given text itself", ofs.where())
+        elif changed or arg[0] in ("s", "join"):
+            ctx.fail(rule, key, f"ode_from_string hands `{_av.show(arg)[:100]}` to the parser, not the given text: a rewrite of the raw text does not know where comments are, so the text of a comment can change what the lines after it mean", ofs.where())
+        else:
+            ctx.undecided(rule, key, f"ode_from_string hands `{_av.show(arg)[:100]}` to the parser; whether that is the given text is not decided", ofs.where())
+    lo = sm.func("load.py", "load_ode")
+    n0 = len(A.call_log)
+    lv = A.returned(lo)[0]
+    calls = [c for c in _av.find_all(lv, "call") if c[1].split(".")[-1] == "ode_from_string"] or [v for _f, _n, v in A.call_log[n0:] if v[0] == "call" and v[1].split(".")[-1] == "ode_from_string"]
+    key = lo.key("file-text")
+    if not calls:
+        ctx.undecided(rule, key, "load_ode: the call of ode_from_string is not found in what the function does", lo.where())
+        return
+    arg = calls[0][2][0] if calls[0][2] else dict(calls[0][3]).get(ofs.params[0])
+    if arg is None:
+        ctx.undecided(rule, key, "load_ode: the text handed to ode_from_string is not found", lo.where())
+        return
+    ok = arg[0] == "mcall" and arg[2] == "read_text" and not arg[3] and all(k in ("encoding", "errors") for k, _ in arg[4])
+    changed = [m for m in _av.find_all(arg, "mcall") if m[2] in TEXT_TRANSFORMS] + [c for c in _av.find_all(arg, "call") if c[1].split(".")[-1] in ("sub", "subn")]
+    if ok:
+        ctx.ok(rule, key, "the file's text is parsed as it is", lo.where())
+    elif changed or arg[0] in ("s", "join"):
+        ctx.fail(rule, key, f"load_ode parses `{_av.show(arg)[:110]}`, not the text of the file: a rewrite of the raw text (line splitting, stripping, substitution) does not know where comments are, so the text of a comment can change what the lines after it mean", lo.where())
+    else:
+        ctx.undecided(rule, key, f"load_ode parses `{_av.show(arg)[:100]}`; whether that is the text of the file is not decided", lo.where())
